@@ -237,7 +237,8 @@ func TestC15(t *testing.T) {
 			evC15.AddEvals(int64(total) - 1)
 			evC15.Case(total >= 3, desc, "kind:"+kind)
 		case "tosql":
-			tab := noInf(hx.GenTable(t, hx.TableOpt{MinCols: 1, MaxCols: 4, Rows: rapid.IntRange(1, 15)}))
+			tab := noInf(hx.GenTable(t, hx.TableOpt{MinCols: 1, MaxCols: 4, Rows: rapid.OneOf(rapid.IntRange(1, 15), rapid.IntRange(1, 15), rapid.IntRange(1, 15), rapid.IntRange(1, 15), rapid.IntRange(95, 210))}))
+			// (now and then a few hundred rows: a writer may send larger frames in another way, e.g. in batches)
 			d := hx.GenDerived(t, tab, 2)
 			n := d.QF.Len()
 			// any dialect configuration: the write path may differ with the options (placeholder style, presets)
